@@ -472,10 +472,10 @@ fn conc(case: &Value) -> Value {
             let barrier = &barrier;
             let inputs = &inputs;
             sc.spawn(move || {
-                let mut rng = Rng(seed ^ ((t as u64 + 1) * 0x1234_5678_9ABC_DEF1));
+                barrier.wait();
+                let mut rng = Rng(seed ^ (t as u64 + 1).wrapping_mul(0x1234_5678_9ABC_DEF1));
                 // a clone per thread, reconfigured for each job (the documented use), or one shared reference
                 let mut own = if shared { None } else { Some(scanner.clone()) };
-                barrier.wait();
                 for r in 0..rounds {
                     for &j in &mine {
                         rng.yields(4);
